@@ -30,6 +30,10 @@ pub enum ReAct {
     Send(u32),
     /// drain the same cell while this message is being boxed
     Drain,
+    /// boxing fails: `box_message` returns an error (the send holds its admission at that point)
+    Fail,
+    /// drain the same cell while this message is being boxed, then fail the boxing
+    DrainFail,
 }
 
 pub struct Inner(pub u32);
@@ -54,6 +58,12 @@ impl ractor::Message for Outer {
                     ReAct::Drain => {
                         let _ = cell.drain();
                         REENTRY_LOG.with(|l| l.borrow_mut().push((u32::MAX, true)));
+                    }
+                    ReAct::Fail => return Err(ractor::message::BoxedDowncastErr),
+                    ReAct::DrainFail => {
+                        let _ = cell.drain();
+                        REENTRY_LOG.with(|l| l.borrow_mut().push((u32::MAX, true)));
+                        return Err(ractor::message::BoxedDowncastErr);
                     }
                 }
             }
@@ -104,6 +114,8 @@ pub enum R2 {
     /// results of re-entrant actions performed while boxing: (id, ok)
     OkRe(Vec<(u32, bool)>),
     SendErrRe(u32, Vec<(u32, bool)>),
+    /// the send was admitted and then failed because boxing the message failed; re-entrant actions performed before
+    BoxFailed(Vec<(u32, bool)>),
 }
 
 pub struct Shared {
@@ -133,6 +145,7 @@ fn exec(sh: &Shared, _ctx: &ThreadCtx, _tid: usize, op: &Op2) -> R2 {
                         R2::SendErrRe(m.id, log)
                     }
                 }
+                Err(MessagingErr::InvalidActorType) if matches!(re, Some(ReAct::Fail | ReAct::DrainFail)) => R2::BoxFailed(log),
                 Err(e) => R2::Other(format!("{e}")),
             }
         }
@@ -170,6 +183,8 @@ fn op_strategy(base: u32) -> BoxedStrategy<Vec<Op2>> {
             2 => Just(1u8),
             1 => Just(2u8),
             1 => Just(3u8),
+            2 => Just(4u8),
+            1 => Just(5u8),
         ],
         1..=3,
     )
@@ -183,7 +198,9 @@ fn op_strategy(base: u32) -> BoxedStrategy<Vec<Op2>> {
                     0 => Op2::Send { id, re: None },
                     1 => Op2::SendSerialized { id },
                     2 => Op2::Send { id, re: Some(ReAct::Send(id + 50)) },
-                    _ => Op2::Send { id, re: Some(ReAct::Drain) },
+                    3 => Op2::Send { id, re: Some(ReAct::Drain) },
+                    4 => Op2::Send { id, re: Some(ReAct::Fail) },
+                    _ => Op2::Send { id, re: Some(ReAct::DrainFail) },
                 }
             })
             .collect()
@@ -256,6 +273,7 @@ pub fn check(case: &Case, out: &Outcome2) -> Result<(bool, Vec<String>), Violati
         match (op(r), &r.res) {
             (Op2::Send { id, .. } | Op2::SendSerialized { id }, res) => {
                 let (ok, back, re) = match res {
+                    R2::BoxFailed(l) => (false, Some(*id), l.clone()),
                     R2::Ok => (true, None, vec![]),
                     R2::OkRe(l) => (true, None, l.clone()),
                     R2::SendErr(b) => (false, Some(*b), vec![]),
@@ -415,6 +433,9 @@ fn small_programs() -> Vec<Vec<Vec<Op2>>> {
         vec![vec![Op2::Send { id: 1, re: Some(ReAct::Send(51)) }], vec![Op2::Drain]],
         vec![vec![Op2::SendSerialized { id: 1 }], vec![s(2)], vec![Op2::Drain]],
         vec![vec![s(1), s(2)], vec![Op2::Drain]],
+        vec![vec![Op2::Send { id: 1, re: Some(ReAct::Fail) }], vec![Op2::Drain]],
+        vec![vec![Op2::Send { id: 1, re: Some(ReAct::Fail) }], vec![s(2)], vec![Op2::Drain]],
+        vec![vec![s(1), Op2::Send { id: 2, re: Some(ReAct::DrainFail) }]],
     ]
 }
 
@@ -457,7 +478,7 @@ impl Part for C07E2X {
         o
     }
     fn rule() -> &'static str {
-        "bounded exhaustive generation: every schedule with at most 2 (quick) / 4 (thorough) preemptions (every choice at every verif_point! within that context bound) of six small programs ({send|drain}, {send,send|drain}, {send|drain|drain}, {re-entrant send|drain}, {serialized send,send|drain}, {send;send|drain}) enumerated by depth-first re-execution and re-checked with the same mailbox oracle; non-trivial = schedule with >=1 preemption; distinct = distinct choice sequence"
+        "bounded exhaustive generation: every schedule with at most 2 (quick) / 4 (thorough) preemptions (every choice at every verif_point! within that context bound) of nine small programs ({send|drain}, {send,send|drain}, {send|drain|drain}, {re-entrant send|drain}, {serialized send,send|drain}, {send;send|drain}, {send whose boxing fails|drain}, {failing send|send|drain}, {send; send that drains re-entrantly and then fails}) enumerated by depth-first re-execution and re-checked with the same mailbox oracle; non-trivial = schedule with >=1 preemption; distinct = distinct choice sequence"
     }
 }
 
